@@ -48,6 +48,8 @@ def mk(d):
     return T.Object(getattr(fixtures, d[1]))
   if k == 'union':
     return T.Union([mk(e) for e in d[1]])
+  if k == 'union?':                  # noneable through the constructor flag (not through .noneable())
+    return T.Union([mk(e) for e in d[1]], is_noneable=True)
   if k == 'noneable':
     return mk(d[1]).noneable()
   if k == 'default':
@@ -93,6 +95,8 @@ def strip(d):
       if not frozen:
         frozen, ftok = True, d[2]
     d = d[1]
+  if d[0] == 'union?':
+    noneable, d = True, ('union', d[1])
   return d, noneable, has_default, dtok, frozen, ftok
 
 
